@@ -20,8 +20,9 @@ CLAIMS = {
             "operands, table keys, group names, int() of groups, unbound locals, datetime "
             "construction/overflow, format specs on None, log domain, explicit raises), "
             "and the search is bounded by a ranking argument.",
-            "Not decided: exceptions from inside regex/dateutil internals, resource "
-            "exhaustion. Trusted: ast, regex parser, dateutil model A2/A3; reference year in "
+            "Not decided: exceptions from inside regex/dateutil internals (incl. OverflowError of the "
+            "datetime.timedelta constructor, seed C01-r4-1), ordering of tuples that falls through to "
+            "unordered objects (seed C01-r4-2, reported by C14), resource exhaustion. Trusted: ast, regex parser, dateutil model A2/A3; reference year in "
             "1970-2100.",
             "DESIGN.md §4 C01"),
     "C02": ("proof",
